@@ -416,7 +416,7 @@ pub fn parts() -> Vec<Box<dyn PartDyn>> {
     vec![Box::new(Part::<Case> {
         name: "e2e",
         rule: "tuning (mem_channel_bound 1-8 plus the documented value 0 as an enumerated scenario, high-water 4-64 KiB, low-water 0-100 % of it), 1-3 publisher threads with a channel each and messages of 100-8100 bytes, total quota four times the tuning-derived buffering limit; the mock transport grants no write budget until every publisher has made no progress for 150 ms, optionally a channel is opened and closed from the connection thread during the stall, then budget trickles in (0-23 grants of 1-3000 bytes), optionally a second stall, finally the transport is unrestricted; oracle: (1) accepted minus written bytes never exceeds high-water + channels x (4 x bound + 8) x (largest message + framing) while stalled, (2) publishers really block (quotas unfinished, no progress), (3) once budget returns every publisher finishes and the open_channel issued during the stall completes, (4) every accepted message is on the final wire exactly once, in order, intact; non-trivial = a publisher blocked during a stall in which the excess was above the high-water mark; distinct by case hash",
-        cases: |t| t.pick(120, 2500),
+        cases: |t| t.pick(200, 3000),
         threads: 12,
         strategy: strat,
         exec,
